@@ -166,6 +166,16 @@ def run(ck: Checker, prog: Program, tier: str):
     ck.floor("C15.R3", len(public), 8, "public settings classes in __all__")
 
     flagged = set()
+    check_constructors(ck, prog, classes, flagged)
+    ck.guard(_r3, ck, prog, public)
+    ck.guard(_r4, ck, prog)
+    ck.extra["calls_resolved"] = eng.calls_resolved
+
+
+def check_constructors(ck: Checker, prog: Program, classes, flagged=None):
+    """R1 / R2 / R5 for the given settings classes: attrs list = stored attributes; every constructor argument stored under its
+    own name or forwarded to the base class; no mutable default shared between instances."""
+    flagged = set() if flagged is None else flagged
     for c in sorted(classes, key=lambda x: len(x.mro())):
         facts = _init_facts(c)
         if facts is None:
@@ -227,9 +237,6 @@ def run(ck: Checker, prog: Program, tier: str):
                              f"base parameters not supplied (fall back to defaults, the caller's value is lost): {missing}; unknown keywords: {wrong}",
                              loc=init.loc(super_call) if super_call is not None else init.loc())
         check_default_sharing(ck, prog, "C15.R5", c, flagged)
-    ck.guard(_r3, ck, prog, public)
-    ck.guard(_r4, ck, prog)
-    ck.extra["calls_resolved"] = eng.calls_resolved
 
 
 def _short(av) -> str:
